@@ -351,6 +351,72 @@ def replay_isolation_battery(a):
     return {"reproduced": bool(out), "mismatches": out[:4], "rules_file": rules, "documents": docs}
 
 
+# --------------------------------------------------------------------------------------------------
+# reads of the environment / the clock (C05: `results never depend on ... the environment, the clock (unless the rule calls now())`)
+# --------------------------------------------------------------------------------------------------
+ENV_READ = re.compile(r"(std::env::\w+|\benv::var\w*|Local\b[^;(]*?::\w+|and_local_timezone|from_local_datetime|SystemTime::now|Instant::now|Utc::now|"
+                      r"chrono::\w+::now|process::id|thread_rng|RandomState::new|current_dir|temp_dir|home_dir|hostname|getenv|localtime)")
+ENV_TOLERATED = [
+    (r"^now$", r"Utc::now", "the built-in now(): the documented exception"),
+    (r"^(handle_structured_single_report|handle_structured_directory_report|get_test_case)$", r"Instant::now", "elapsed-time attribute of JUnit / test reports (excluded by the property)"),
+    (r"structured\.rs.*>::evaluate$", r"Instant::now", "elapsed-time field of the structured test report (excluded by the property)"),
+    (r"xml\.rs.*>::report$", r"Instant::now", "elapsed-time attribute of the JUnit validate report (excluded by the property)"),
+]
+
+
+def environment_reads(a):
+    """every call in the crate that reads the process environment, the local time zone, a clock or a random source, enumerated from the MIR
+    of the current tree; allowed: the built-in now() and the elapsed-time stamps the property excludes. Degenerate solver part (finite table)"""
+    found = []
+    for name, text in functions(a.mir):
+        for line in text.splitlines():
+            if "-> [return" in line or "-> bb" in line:
+                m = ENV_READ.search(line)
+                if m:
+                    found.append((name, m.group(1)))
+    found = sorted(set(found))
+    flagged = [(n, c) for n, c in found if not any(re.search(fr, n) and re.search(cr, c) for fr, cr, _why in ENV_TOLERATED)]
+    a.fns.append("every call that reads the environment / time zone / clock / a random source (enumerated from MIR)")
+    st = a.ob.check("environment/no-dependence-on-env-clock-timezone", [], [], "true" if flagged else "false",
+                    f"environment reads ({len(found)} call sites enumerated: {', '.join(sorted({c for _n, c in found})) or 'none'}): apart from the built-in now() and "
+                    "the elapsed-time stamps, nothing in the crate reads an environment variable, the local time zone, a clock or a random source"
+                    + (f" - FOUND: {'; '.join(n.split('::')[-1] + ' calls ' + c for n, c in flagged[:4])}" if flagged else ""))
+    item = a.ob.items[-1]
+    item["paths"], item["cut_by_unroll_bound"], item["unroll"] = len(found), 0, 0
+    if st == "refuted":
+        item["replay"] = replay_environment(a)
+        item["reproduced"] = item["replay"].get("reproduced", False)
+        a.candidates.append(item)
+
+
+def replay_environment(a):
+    """the same command under different TZ / LANG / HOME / unrelated environment variables: same exit code and output"""
+    import os, shutil, subprocess, tempfile
+    exe = a.cli()
+    if not exe:
+        return {"reproduced": False, "note": "native build failed"}
+    d = tempfile.mkdtemp(prefix="cfnverif_replay_")
+    out = []
+    try:
+        open(os.path.join(d, "r.guard"), "w").write(
+            "let t1 = parse_epoch(stamp)\nlet t2 = parse_epoch(naive)\nrule a { %t1 == 1724198400 }\nrule b { %t2 == 1724198400 }\nrule c { name == \"x\" }\n")
+        open(os.path.join(d, "d.json"), "w").write('{"stamp": "2024-08-21T00:00:00Z", "naive": "2024-08-21T00:00:00", "name": "x"}\n')
+        outs = {}
+        for label, env in (("UTC", {"TZ": "UTC0"}), ("JST", {"TZ": "JST-9"}), ("EST", {"TZ": "EST5", "LANG": "de_DE.UTF-8", "HOME": "/nonexistent", "GUARD_X": "1"})):
+            e = dict(os.environ)
+            e.update(env)
+            pr = subprocess.run([exe, "validate", "-r", os.path.join(d, "r.guard"), "-d", os.path.join(d, "d.json"), "--structured", "-o", "json", "--show-summary", "none"],
+                                capture_output=True, text=True, env=e, timeout=60)
+            outs[label] = (pr.returncode, pr.stdout, pr.stderr[-200:])
+        base = outs["UTC"]
+        for k, v in outs.items():
+            if v[:2] != base[:2]:
+                out.append({"environment": k, "exit": v[0], "exit_under_UTC": base[0], "note": "exit code / structured output differs from the run under TZ=UTC0"})
+        return {"reproduced": bool(out), "mismatches": out, "exit_codes": {k: v[0] for k, v in outs.items()}}
+    finally:
+        shutil.rmtree(d, ignore_errors=True)
+
+
 def order_independence(a):
     it_sites, ser_sites = enumerate_sites(a.mir)
     a.fns.append("every function of the crate that iterates a std HashMap / HashSet (enumerated from MIR)")
@@ -587,4 +653,4 @@ def replay_determinism(a, runs=8):
         shutil.rmtree(d, ignore_errors=True)
 
 
-SITES = {"C05": [order_independence, single_key_lemmas, process_state_sites], "C12": [process_state_sites, order_independence]}
+SITES = {"C05": [order_independence, single_key_lemmas, process_state_sites, environment_reads], "C12": [process_state_sites, order_independence]}
